@@ -18,6 +18,7 @@ series, horizon and every point other than k=0 are compared before/after the cal
 import copy
 import json
 import math
+import os
 
 import common
 from common import coq_string, coq_list, coq_float, coq_nat, coq_option
@@ -28,6 +29,8 @@ PROPFILE = 'PropC15.v'
 LEVEL = 'proof'
 REQUIRES = ['From SFC.Base Require Import Res.', 'From SFC.Hist Require Import Steady CaseDefs.']
 NEAR = 1e-4
+# development switch: compare with the model of the code BEFORE fix D15a (to validate accept_orig on a pre-fix tree)
+CASEFN = 'c15_case_orig' if os.environ.get('VERIF_ORIG_MODEL') else 'c15_case'
 TOLS = [1e-2, 1e-3, 1e-4, 1e-4, 1e-5, 1e-6, 3e-4]
 MAGS = [0.5, 1.0, 7.3, 100.0, 1e4]
 
@@ -478,7 +481,7 @@ def emit(case, r):
     tail = 3 if T >= 3 else None
     res = 'Ok tt' if r['res'] == 'ok' else 'Err %s' % cerr_name(r['res'])
     cerr = coq_option(None if r['cerr'] is None else cerr_name(r['cerr']))
-    return 'c15_case %s %s %s %s %s (%s) %s' % (
+    return CASEFN + ' %s %s %s %s %s (%s) %s' % (
         coq_float(case['tol']), coq_list([coq_string(x) for x in case['excluded']]),
         fser(r['before']['series']), fser(r['holder'], tail), cerr, res, fser(r['after']['series']))
 
